@@ -311,6 +311,9 @@ func c51JwtMod() *c51Mod {
 		scen:  [2]int{4, 24},
 		cases: [2]int{1000, 2500},
 		must:  []string{"jwt_uncovered_passed", "jwt_not_judged", "jwt_valid_HS", "jwt_valid_RSA", "jwt_valid_ES"},
+
+		ambig:      c51JwtAmbRun,
+		ambigCases: [2]int{200, 400},
 	}
 }
 
